@@ -255,8 +255,6 @@ Section TagsEnc.
   Qed.
 
   (* Tags::matches *)
-  Definition tag_is (letter value : bytes) (t : list bytes) : bool :=
-    match t with n :: v :: _ => beq n letter && beq v value | _ => false end.
 
   Lemma tags_matches_from_enc letter value k i :
     (i + k = length ts)%nat ->
@@ -306,13 +304,6 @@ Section TagsEnc.
   Qed.
 
   (* Tags::get_value *)
-  Fixpoint spec_get_value (key : bytes) (l : atags) : option bytes :=
-    match l with
-    | [] => None
-    | (n :: rest) :: l' => if beq n key then nth_error rest 0 else spec_get_value key l'
-    | [] :: l' => spec_get_value key l'
-    end.
-
   Lemma tags_get_value_from_enc key k i :
     (i + k = length ts)%nat ->
     tags_get_value_from w k (N.of_nat i) key = Ok (spec_get_value key (skipn i ts)).
